@@ -47,8 +47,8 @@ def gen(rng, tier):
                         out.append(Case("prod2", ty, fam, st, [n1, n0], flat_op(w1) + flat_op(w0), mdims=[n1, n0, lab],
                                         tag=tag, meta={"g": gid, "side": 1}))
         for sizes in [(2, 2), (2, 3), (3, 2), (3, 3), (2, 2, 2), (2, 3, 2), (3, 2, 3), (3, 3, 3)]:
-            for i in range(4 if tier == "quick" else 200):
-                ws = tiny_factors(rng, ty, sizes)
+            for i in range(6 if tier == "quick" else 200):
+                ws = tiny_factors(rng, ty, sizes, sub=(i % 3 == 1))
                 if ws is None:
                     continue
                 nums = sum((flat_op(w) for w in ws), [])
@@ -83,11 +83,17 @@ def gen(rng, tier):
     return out
 
 
-def tiny_factors(rng, ty, sizes):
+def tiny_factors(rng, ty, sizes, sub=False):
     """factors with one tiny positive base-rate entry each, such that the joint base rate of that cell lies around or
-    below machine epsilon yet is not zero: the cell still bounds the uncertainty"""
+    below machine epsilon (sub: in the subnormal range of the element type) yet is not zero: the cell still bounds
+    the uncertainty"""
     k = len(sizes)
-    if ty == "f64":
+    if sub:
+        # just below the normal range: the joint base rate 2^-(k e) is exact and the joint projection keeps >= 40 (f64)
+        # / 17 (f32) significant bits; deeper in the subnormal range the quotient (P - b0 b1)/a is inaccurate by IEEE
+        # design (gradual underflow) and no formula could do better
+        e = -(-(rng.choice([1028, 1034]) if ty == "f64" else rng.choice([128, 132])) // k)
+    elif ty == "f64":
         e = rng.choice([52, 54, 60, 80]) // k + rng.below(3)
     else:
         e = rng.choice([23, 25, 30]) // k + rng.below(3)
